@@ -180,6 +180,13 @@ def op_line(op):
         return 'select %d %s' % (op[1], fmt_filter(op[2]))
     if t == 'selectby':
         return 'selectby %d' % op[1] + ''.join(' %d:%d:%d' % (a, k, v) for a, k, v in op[2])
+    if t == 'deletemany':
+        return 'bulkdel %d %s' % (op[1], fmt_filter(op[2]))
+    if t == 'deleteby':
+        f = ['tt']
+        for a, k, v in op[2]:
+            f = ['and', f, ['attr', a, k, 'eq', v]]
+        return 'bulkdel %d %s' % (op[1], fmt_filter(f))
     raise ValueError(op)
 
 
@@ -335,6 +342,17 @@ def run_op(h, op):
             return 'sel' + ''.join(' %d:%d' % (i, m) for i, m in
                                    sorted((o.id, h.idx.get(type(o).__name__, -1)) for o in res)) + \
                 ('' if cnt == len(res) else ' count()=%d' % cnt)
+        if t == 'deletemany':
+            cls = h.classes[op[1]]
+            clause = build_clause(h, op[1], op[2])
+            if clause is None:
+                cls.deleteMany(where=None)
+            else:
+                cls.deleteMany(where=clause)
+            return 'ok'
+        if t == 'deleteby':
+            h.classes[op[1]].deleteBy(**dict(('v%dk%d' % (a, k), v) for a, k, v in op[2]))
+            return 'ok'
     except Exception as ex:
         conn.stmts = None
         return exc(ex)
@@ -396,6 +414,16 @@ def eval_filter(shape, raw, i, f):
 def oracle_step(shape, op, ans, before, after):
     """property oracle for one executed step, from raw dumps only; list of (kind, text)"""
     bad = list(check_invariant(shape, after))
+    try:
+        bad += _oracle_step(shape, op, ans, before, after)
+    except Exception as e:  # only reachable when the tables are already inconsistent
+        if not bad:
+            bad.append(('oracle-cannot-evaluate', '%s on %s: %r' % (type(e).__name__, op_line(op), e)))
+    return bad
+
+
+def _oracle_step(shape, op, ans, before, after):
+    bad = []
     t = op[0]
     n = len(shape)
 
@@ -445,7 +473,7 @@ def oracle_step(shape, op, ans, before, after):
         md = most_derived(shape, after, root_of(shape, e), i)
         present = i in after[e]
         if t == 'get':
-            if present and ans != 'ok %d' % md:
+            if present and ans != 'ok %s' % (md,):
                 bad.append(('less-derived-instance', 'K%d.get(%d) answered %s, most-derived by the rows is K%s'
                             % (e, i, ans, md)))
             if not present and ans != 'NotFound':
@@ -484,7 +512,8 @@ def oracle_step(shape, op, ans, before, after):
                     if i in after[c]:
                         bad.append(('destroy-leaves-row', 'after K%d.get(%d).destroySelf() table K%d still has row %d'
                                     % (e, i, c, i)))
-                    if set(before[c]) - {i} != set(after[c]) or any(after[c][j] != before[c][j] for j in after[c]):
+                    if set(before[c]) - {i} != set(after[c]) - {i} or \
+                            any(after[c][j] != before[c].get(j) for j in after[c] if j != i):
                         bad.append(('destroy-changes-other-rows', 'destroying id %d changed other rows of K%d' % (i, c)))
                 elif before[c] != after[c]:
                     bad.append(('destroy-touches-other-tree', 'destroying changed table K%d' % c))
@@ -523,6 +552,13 @@ def oracle_step(shape, op, ans, before, after):
 
 
 def oracle_views(shape, raw, i, struct):
+    try:
+        return _oracle_views(shape, raw, i, struct)
+    except Exception as e:  # only reachable when the tables are already inconsistent
+        return [('oracle-cannot-evaluate', '%s on views of id %d: %r' % (type(e).__name__, i, e))]
+
+
+def _oracle_views(shape, raw, i, struct):
     bad = []
     for e, m, vals in struct:
         present = i in raw[e]
@@ -753,6 +789,47 @@ def gen_history(rng, shape, nops):
     return ops
 
 
+def sweep_cases(shape):
+    """every class created x every class used as the entry point x every operation kind, with a
+    sibling / other-kind population around it (systematic, no randomness)"""
+    n = len(shape)
+    cases = []
+    for c in range(n):
+        chain = anc(shape, c)
+        attrs = [(a, k) for a in reversed(chain) for k in range(shape[a][1])]
+        for e in range(n):
+            ops = []
+            # population: one instance of every class, the class under test twice (ids 1..n+1 per root)
+            order = [x for x in range(n) if x != c] + [c, c]
+            ids = {}
+            hi = {}
+            for x in order:
+                r = root_of(shape, x)
+                hi[r] = hi.get(r, 0) + 1
+                ids.setdefault(x, []).append(hi[r])
+                ops.append(['create', x, [[a, k, (a + k + len(ops)) % 4] for a in reversed(anc(shape, x))
+                                          for k in range(shape[a][1])]])
+            i = ids[c][0]
+            ops.append(['get', e, i])
+            for (a, k) in attrs:
+                ops.append(['read', e, i, a, k])
+            for (a, k) in attrs:
+                ops.append(['write', e, i, a, k, 7])
+                ops.append(['select', e, ['attr', a, k, 'eq', 7]] if a in anc(shape, e) else ['select', c, ['attr', a, k, 'eq', 7]])
+            if attrs:
+                ops.append(['set', e, i, [[a, k, 3] for a, k in attrs]])
+                ops.append(['selectby', c, [[a, k, 3] for a, k in attrs[:2]]])
+            ops.append(['select', e, ['tt']])
+            ops.append(['selectby', e, []])
+            ops.append(['destroy', e, i])
+            ops.append(['select', e, ['tt']])
+            ops.append(['get', c, i])
+            ops.append(['destroy', c, ids[c][1]])
+            ops.append(['select', root_of(shape, c), ['tt']])
+            cases.append((shape, ops, (c + e) % 2 == 1))
+    return cases
+
+
 def corpus_cases():
     cases = []
     d = os.path.join(os.path.dirname(os.path.dirname(os.path.abspath(__file__))), 'corpus', 'C15')
@@ -808,10 +885,14 @@ def run(ctx):
     sqlo.setup()
     rng = ctx.rng
     cases = [(norm_shape(s), o, c) for s, o, c in corpus_cases()]
-    ncorpus = len(cases)
     nshapes = ctx.budget(10, 60)
     shapes = [norm_shape(BASE_SHAPE)] + [norm_shape(gen_shape(rng)) for _ in range(nshapes)]
-    ncases = ctx.budget(2200, 30000)
+    cases += sweep_cases(shapes[0])
+    if ctx.tier == 'thorough' or ctx.deep:
+        for sh in shapes[1:6]:
+            cases += sweep_cases(sh)
+    ncorpus = len(cases)
+    ncases = ctx.budget(1500, 18000)
     for k in range(ncases):
         shape = shapes[0] if rng.random() < 0.4 else rng.choice(shapes)
         nops = rng.randint(3, 25)
@@ -828,6 +909,7 @@ def run(ctx):
         results.append((shape, ops, cold, lines, impl, fails, len(all_lines)))
         all_lines.extend(lines)
     outs = ctx.model(all_lines)
+    run_bulk(ctx, ctx.model)
 
     reported = set()
     for idx, (shape, ops, cold, lines, impl, fails, off) in enumerate(results):
@@ -838,7 +920,7 @@ def run(ctx):
         ctx.case((tuple(shape), json.dumps(ops), cold), nontrivial=sub and len(levels) >= 2,
                  sample={'case': {'shape': desc['shape'], 'ops': [op_line(o) for o in ops][:12]},
                          'impl': [a for a in impl[1:8]]},
-                 kind=('corpus' if idx < ncorpus else ('base-hierarchy' if shape == shapes[0] else 'random-tree'))
+                 kind=('corpus+sweep' if idx < ncorpus else ('base-hierarchy' if shape == shapes[0] else 'random-tree'))
                  + ('/cold-cache' if cold else '/warm-cache'))
         for t in kinds:
             ctx.count('op:' + t)
@@ -865,9 +947,71 @@ def run(ctx):
                     break
 
 
+# the class-level bulk deletes (`SQLObject.deleteMany` / `deleteBy`, not overridden by
+# InheritableSQLObject): witnesses of C15_bulk_delete_keeps_no_orphan_full_FALSE, replayed on every run
+BULK_WITNESSES = [
+    ('C15:deleteBy-leaves-orphans',
+     {'shape': [list(x) for x in BASE_SHAPE], 'cold': False, 'bulk': True,
+      'ops': [['create', 3, [[0, 0, 1], [3, 0, 0]]], ['deleteby', 3, [[3, 0, 0]]]]}),
+    ('C15:deleteMany-leaves-orphans',
+     {'shape': [list(x) for x in BASE_SHAPE], 'cold': False, 'bulk': True,
+      'ops': [['create', 3, [[0, 0, 1], [3, 0, 0]]], ['deletemany', 0, ['attr', 0, 0, 'eq', 1]]]}),
+    # bulk delete on a class outside any hierarchy position that matters (C15_…_partial does hold there):
+    (None,
+     {'shape': [[None, 1, 1], [None, 1, 1], [1, 1, 1]], 'cold': False, 'bulk': True,
+      'ops': [['create', 0, [[0, 0, 1]]], ['create', 0, [[0, 0, 2]]], ['create', 2, [[1, 0, 1]]],
+              ['deletemany', 0, ['attr', 0, 0, 'eq', 1]], ['deleteby', 0, [[0, 0, 5]]]]}),
+]
+
+
+def run_bulk(ctx, outs_for):
+    for key, case in BULK_WITNESSES:
+        shape = norm_shape(case['shape'])
+        h = hier_for(shape)
+        h.reset()
+        lines = [tree_line(shape)]
+        impl = [None]
+        bad = []
+        for op in case['ops']:
+            ans = run_op(h, op)
+            raw = h.raw()
+            lines += [op_line(op), 'dump']
+            impl += [ans, fmt_dump(raw)]
+            bad = check_invariant(shape, raw)
+        h.conn.cache.clear()
+        ctx.case(('bulk', key), nontrivial=True, kind='bulk-delete witness')
+        if bad:
+            if key is None:
+                ctx.oracle_fail('C15:bulk-delete-on-standalone-class-leaves-orphans', bad[0][1], case)
+            else:
+                ctx.oracle_fail(key, '%s: %s' % (op_line(case['ops'][-1]), bad[0][1]), case)
+        elif key is not None:
+            ctx.note('bulk-delete witness %s no longer leaves an orphan: C15_bulk_delete_keeps_no_orphan_full_FALSE '
+                     'describes code that has changed' % key)
+        outs = outs_for(lines)
+        if outs is not None:
+            for j, line in enumerate(lines):
+                if impl[j] is not None:
+                    ctx.compare('bulk deletes (deleteMany / deleteBy): model = raw SELECT',
+                                {'case': case, 'at': line}, outs[j], impl[j])
+
+
 def replay(case):
     sqlo.setup()
     shape = norm_shape(case['shape'])
+    if case.get('bulk'):
+        h = hier_for(shape)
+        h.reset()
+        text = []
+        bad = []
+        for op in case['ops']:
+            ans = run_op(h, op)
+            raw = h.raw()
+            bad = check_invariant(shape, raw)
+            text.append('%s -> %s\n   %s' % (op_line(op), ans, fmt_dump(raw)))
+        h.conn.cache.clear()
+        text += ['oracle: ' + (', '.join(t for _, t in bad) if bad else 'no orphan')]
+        return not bad, '\n'.join(text)
     lines, impl, fails = run_case(shape, case['ops'], cold=bool(case.get('cold')))
     text = ['history%s:' % (' (cache emptied before every step)' if case.get('cold') else '')] + ['  ' + op_line(o) for o in case['ops']] + ['answers:'] + \
            ['  %s -> %s' % (l, a) for l, a in zip(lines, impl) if a is not None and not l.startswith('views')]
